@@ -745,6 +745,8 @@ pub fn gen(g: &mut Gen) {
             }
             g.op(format!("@ zero_one {} {}", ty, wrap));
             g.count("zero_one");
+            g.count(&format!("zero_one.arm.{}.{}", ty, wrap));
+            g.count_n(&format!("from_usize.arm.{}.{}", ty, wrap), counts.len() as u64);
         }
     }
     for (ty, p) in [("f32", 24u32), ("f64", 53u32)] {
@@ -757,6 +759,8 @@ pub fn gen(g: &mut Gen) {
             g.count_n(&format!("from_usize.type.{}", ty), counts.len() as u64);
             g.op(format!("@ zero_one {} {}", ty, wrap));
             g.count("zero_one");
+            g.count(&format!("zero_one.arm.{}.{}", ty, wrap));
+            g.count_n(&format!("from_usize.arm.{}.{}", ty, wrap), counts.len() as u64);
         }
     }
     // ---- from_usize: exhaustive for the 8/16-bit types (all wrappers) --------------------------
@@ -815,7 +819,7 @@ impl Runner {
             ["@", "fop", ty, op, a, b] => fop_line(ty, op, a, b),
             ["@", "fident", ty, a] => fident_line(ty, a),
             ["@", "user", rest @ ..] => user::run(rest),
-            ["@", cmd @ ("trop" | "trsc" | "trneg" | "trpow" | "recop" | "recsc" | "recneg" | "recpow"), rest @ ..] => {
+            ["@", cmd @ ("trop" | "trsc" | "trneg" | "trpow" | "recop" | "recsc" | "recneg" | "recpow" | "freal" | "trreal" | "recreal"), rest @ ..] => {
                 wrap::run(cmd, rest)
             }
             _ => "bad-op".into(),
